@@ -85,3 +85,16 @@ Lemma escape_u_value ds r : forallb is_hex ds = true -> hexnum ds 0 <= u32_max -
 Proof.
   intros Hh Hm. unfold escape. simpl. rewrite (hex_loop_value ds 0 r Hh Hm). reflexivity.
 Qed.
+
+(* line continuation = backslash, optional CR, LF, then the leading whitespace of the next line is skipped:
+   the LF after a CR is consumed too (CRLF sources) *)
+Lemma continuation_skips_crlf_lemma t :
+  escape (13 :: 10 :: t) = ESkip (skip_ws t) /\ escape (10 :: t) = ESkip (skip_ws t) /\
+  (forall ws c r, forallb (fun x => is_whitespace x && negb (x =? 10)) ws = true ->
+                  is_whitespace c && negb (c =? 10) = false -> skip_ws (ws ++ c :: r) = c :: r).
+Proof.
+  split; [reflexivity|]. split; [reflexivity|].
+  induction ws as [|w ws IH]; intros c r Hw Hc; simpl.
+  - rewrite Hc. reflexivity.
+  - simpl in Hw. apply andb_true_iff in Hw as [H1 H2]. rewrite H1. apply IH; assumption.
+Qed.
